@@ -239,6 +239,12 @@ func (manager *Manager) registerConvergence(conv Convergence) {
 		}).Warn("Startup of CLA  failed, a retry should not be made")
 	} else {
 		manager.convs.Store(conv.Address(), ce)
+
+		// The Manager might have been closed while this CLA was starting, which may take some time. Its shutdown has
+		// not seen this element then, so it is stopped and removed right here.
+		if manager.isStopped() {
+			manager.unregisterConvergence(conv)
+		}
 	}
 }
 
